@@ -173,15 +173,26 @@ func verifHeapRemove(i int) *tssItem { return heap.Remove(&tssQ, i).(*tssItem) }
 //@   noreturn
 //@   noframe
 //@   requires conn != nil && provider != nil && log != nil && mtrcs != nil
-//@   callsite ntp.DecodePacket 0 scope len(buf) <= 48
+// Scope: the construction of the NTS reply (fresh cookies, NewResponsePacket, EncodePacket into the receive buffer, which
+// the request's unique identifier still aliases) is cut off where it starts; it is covered by the harness
+// nts.verifServerReplyToRequest (and the known findings about reply size). Everything before it - decoding the NTS
+// request, its cookie, the key lookup, decryption, authentication - is within the contract for datagrams of any size.
+//@   callsite provider.Current 0 scope false
+// An NTS request is served only after its cookie opened under the provider key named in it and its authenticator
+// opened under the client-to-server key sealed in that cookie, over the datagram's own bytes up to the authenticator.
+//@   callsite handleRequest 0 requires len(buf) > 48 ==> authenticated
+//@   callsite handleRequest 0 requires authenticated ==> opened() && sameslice(lastOpenKey(), serverCookie.C2S) && sameslice(lastOpenAD(), buf[:ntsreq.VerifAuthPos()])
+//@   callsite nts.ProcessRequest 0 requires opened() && sameslice(lastOpenKey(), key.Value) && sameslice(lastOpenNonce(), encryptedCookie.Nonce) && sameslice(lastOpenCT(), encryptedCookie.Ciphertext)
+// Each datagram is decoded into a fresh packet value (DecodePacket appends to the cookie lists it is given).
+//@   callsite nts.DecodePacket 0 requires len(ntsreq.Cookies) == 0 && len(ntsreq.CookiePlaceholders) == 0
 // Every read offers the whole receive buffers: a datagram dropped earlier must not shrink what the next one may use
 // ("the next well-formed request on the same socket is still answered").
 //@   loop 0 invariant capof(buf) == 2048 && capof(oob) == 64
 //@   callsite conn.ReadMsgUDPAddrPort 0 requires len(buf) == 2048 && len(oob) == 64
 //@   loop 0 iterensures once: mathint(calls("UDPConn.WriteToUDPAddrPort")) <= mathint(prev(calls("UDPConn.WriteToUDPAddrPort")))+1
 //@   loop 0 iterensures silent: !wellFormedHeader(lastpkt()) ==> calls("UDPConn.WriteToUDPAddrPort") == prev(calls("UDPConn.WriteToUDPAddrPort"))
-//@   loop 0 iterensures answered: lastreadok() && wellFormedHeader(lastpkt()) ==> mathint(calls("UDPConn.WriteToUDPAddrPort")) == mathint(prev(calls("UDPConn.WriteToUDPAddrPort")))+1
-//@   loop 0 iterensures reply: calls("UDPConn.WriteToUDPAddrPort") != prev(calls("UDPConn.WriteToUDPAddrPort")) ==> len(lastsent()) == 48 && lastsent()[0]&7 == 4 && (lastsent()[0]>>3)&7 == 4 && lastsent()[1] == 1
+//@   loop 0 iterensures answered: lastreadok() && len(lastpkt()) <= 48 && wellFormedHeader(lastpkt()) ==> mathint(calls("UDPConn.WriteToUDPAddrPort")) == mathint(prev(calls("UDPConn.WriteToUDPAddrPort")))+1
+//@   loop 0 iterensures reply: calls("UDPConn.WriteToUDPAddrPort") != prev(calls("UDPConn.WriteToUDPAddrPort")) ==> (len(lastpkt()) <= 48 ==> len(lastsent()) == 48) && len(lastsent()) >= 48 && lastsent()[0]&7 == 4 && (lastsent()[0]>>3)&7 == 4 && lastsent()[1] == 1
 
 // ---- the SCION listener: the project's own code in the receive loop, for every packet the parser may deliver ----
 // gopacket's parser fills the layer values with arbitrary (valid) contents; third-party serialisation, MAC and key
@@ -190,18 +201,24 @@ func verifHeapRemove(i int) *tssItem { return heap.Remove(&tssQ, i).(*tssItem) }
 //@ func runSCIONServer
 //@   noreturn
 //@   noframe
-//@   requires conn != nil && log != nil && mtrcs != nil
+//@   requires conn != nil && log != nil && mtrcs != nil && provider != nil
 //@   requires slayers.LayerTypeSCIONUDP != slayers.LayerTypeSCMP
 //@   requires fetcher != nil ==> fetcher.VerifReady()
 //@   loop 0 invariant fetcher != nil ==> fetcher.VerifReady()
 //@   noerror buffer.Clear, payload.SerializeTo, scmpLayer.SerializeTo, scionLayer.SerializeTo, udpLayer.SerializeTo, e2eLayer.SerializeTo, e2eExtn.SerializeTo, spao.ComputeAuthCMAC, scion.DeriveHostHostKey
-//@   callsite ntp.DecodePacket 0 scope len(udpLayer.Payload) <= 48
+// Scope, as for the IP listener: the construction of the NTS reply is cut off where it starts (harness
+// nts.verifServerReplyToRequest covers it); decoding and authenticating the NTS request are within the contract.
+//@   callsite provider.Current 0 scope false
+//@   callsite handleRequest 0 requires len(udpLayer.Payload) > 48 ==> ntsAuthenticated
+//@   callsite handleRequest 0 requires ntsAuthenticated ==> opened() && sameslice(lastOpenKey(), serverCookie.C2S) && sameslice(lastOpenAD(), udpLayer.Payload[:ntsreq.VerifAuthPos()])
+//@   callsite nts.ProcessRequest 0 requires opened() && sameslice(lastOpenKey(), key.Value) && sameslice(lastOpenNonce(), encryptedCookie.Nonce) && sameslice(lastOpenCT(), encryptedCookie.Ciphertext)
+//@   callsite nts.DecodePacket 0 requires len(ntsreq.Cookies) == 0 && len(ntsreq.CookiePlaceholders) == 0
 //@   loop 0 invariant capof(buf) == scion.MTU && capof(oob) == 64
 //@   callsite conn.ReadMsgUDPAddrPort 0 requires len(buf) == scion.MTU && len(oob) == 64
 // Per received packet at most one packet is written, and a request is handled (and then answered) only if the UDP
 // payload is a well-formed NTP request addressed to the listener's port.
 //@   loop 0 iterensures once: mathint(calls("UDPConn.WriteToUDPAddrPort")) <= mathint(prev(calls("UDPConn.WriteToUDPAddrPort")))+1
-//@   callsite handleRequest 0 requires wellFormedHeader(udpLayer.Payload) && len(udpLayer.Payload) == 48 && int(udpLayer.DstPort) == localHostPort
+//@   callsite handleRequest 0 requires wellFormedHeader(udpLayer.Payload) && (len(udpLayer.Payload) == 48 || ntsAuthenticated) && int(udpLayer.DstPort) == localHostPort
 // The clauses below are stated at the serialisation calls (the last point at which the project's code still owns
 // the layer values; ordinals are in source order: 0 = SCMP reply, 1 = forwarding, 2 = NTP reply for the SCION layer).
 // Forwarding: only packets received on the end-host port, addressed to another port than the listener's and never
